@@ -28,11 +28,19 @@ from .. import gentables as _gt
 
 register("C14", lean_modules=["GtModel.Props.C14"], gen=_gt.gen_cli_tables, streams=["cli"],
          theorems=["GtModel.C14.alias_from_type", "GtModel.C14.explicit_mime_wins", "GtModel.C14.explicit_type_wins",
-                   "GtModel.C14.second_file_ignores_first_file_options", "GtModel.C14.alias_k", "GtModel.C14.alias_j",
+                   "GtModel.C14.second_file_ignores_first_file_options", "GtModel.C14.first_file_ignores_second_file_options",
+                   "GtModel.C14.alias_k", "GtModel.C14.alias_j", "GtModel.C14.join_flags_independent",
                    "GtModel.C14.default_is_auto", "GtModel.C14.by_mime_of_default"],
-         partial="argparse's parsing of argv and the byte-level agreement with the library are checked by the cli stream on the real code, not proved",
+         partial="the theorems are rfl/simp/decide facts about a small model of main()'s selection and option logic; argparse's parsing of argv and the "
+                 "byte-level agreement with the library are checked by the cli stream on the real code, not proved: all 8 types incl. pickle (binary filesets, "
+                 ".pkl/.pickle names), every ordered pair of different types in the four spellings (type/type, type/mime, mime/type, mime/mime) on neutral, "
+                 "misleading and compression-like names (old.json.gz), each join flag alone, and command-vs-library text and exit status in full-diff, -e and -d "
+                 "mode with and without -f (in-process, stdout replaced), plus 8 documents as a real process writing to a pipe with and without --no-status "
+                 "(line-separator characters in YAML/XML strings). Not exercised: --html, --color, stdin ('-'), a TTY. Cross-type pairs whose diff raises in the "
+                 "library (xml vs non-xml, plist vs json: same exception from the command) contribute the parser selection only.",
          assumptions=["mimetypes.guess_type is an oracle (its answer for each file name is recorded and shipped to the model)"],
-         trusted=["file-type tables regenerated from /repo by harness/gentables.py"])
+         trusted=["file-type tables regenerated from /repo by harness/gentables.py",
+                  "harness/streams/cli.py:_lib_run — an independent transcription of the documented library call sequence for the three output modes"])
 
 register("C13", lean_modules=["GtModel.Props.C13"], gen=_gt.gen_formatter_tables, streams=["dispatch", "matrix"],
          theorems=["GtModel.C13.dispatch_total", "GtModel.C13.dispatch_total_from_subformatters", "GtModel.C13.edit_dispatch_total", "GtModel.C13.fuel_sufficient"],
